@@ -368,3 +368,6 @@ Definition step (s : state) (e : event) : state :=
   end.
 Definition run (h : list event) : state := fold_left step h state0.
 End Broker.
+
+(* the rows a fixed synchronous store vouches for *)
+Definition srow (st : ident -> lookup) : ident -> row -> Prop := fun i r => st i = LRow r.
